@@ -1,0 +1,23 @@
+//go:build verif
+
+// Contracts checked by /verif/gowp. This file contains comments only and is compiled only
+// with -tags verif.
+
+package v1
+
+// C14 (history is collected by the limit the user set - 0 means never): the revision history
+// limit the package manager reads is the one in the package's spec, as it is (nil when unset).
+//@ func (*v1.Provider).GetRevisionHistoryLimit
+//@ props C14
+//@ frame fresh-only
+//@ ensures [C14:history-limit-is-the-one-in-the-spec] result == p.Spec.RevisionHistoryLimit
+
+//@ func (*v1.Configuration).GetRevisionHistoryLimit
+//@ props C14
+//@ frame fresh-only
+//@ ensures [C14:history-limit-is-the-one-in-the-spec] result == p.Spec.RevisionHistoryLimit
+
+//@ func (*v1.Function).GetRevisionHistoryLimit
+//@ props C14
+//@ frame fresh-only
+//@ ensures [C14:history-limit-is-the-one-in-the-spec] result == f.Spec.RevisionHistoryLimit
